@@ -72,6 +72,9 @@ func genC14(rng *rand.Rand, n int, emit func(Case), dist map[string]int) {
 			// a second, more generous instance closer to the handler (application-wide limit + route-level limit):
 			// the stricter outer one still bounds what the handler can read
 			outer, inner := mw, middleware.BodyLimit(c14Limit(4*lim+50))
+			if rng.Intn(2) == 0 {
+				outer, inner = inner, outer // the generous one in front, the strict one closer to the handler
+			}
 			mw = func(next echo.HandlerFunc) echo.HandlerFunc { return outer(inner(next)) }
 			dist["stacked_instances"]++
 		}
